@@ -193,6 +193,56 @@ def check_va_seq(rep, prog):
     return ncalls
 
 
+def check_va_forward(rep, prog):
+    """an argument list that has been read is not handed to another pipe as if it were fresh"""
+    rep.rule('R-va-forward', 'in every function receiving a va_list: once va_arg() has read from the list, the list itself is not passed to upipe_control_va / '
+             'upipe_mgr_control_va - the public entry points that expect the complete arguments of the command, signature first. The receiving pipe would read '
+             'whatever follows as signature and value: the command fails or sets garbage after the forwarding pipe has already taken the value (a refused '
+             'setter that changed the option). Forwarding to a function of the same unit, which knows what was consumed, is not an instance. Contradiction rule, '
+             'expected count 0; the matcher is exercised on a synthetic function shape on every run')
+    from upv import pathrules as pr
+    FRESH = ('upipe_control_va', 'upipe_mgr_control_va')
+    n = 0
+    units = list(prog.units.values()) + ([prog.hdr] if prog.hdr else [])
+    for u in units:
+        for fn in sorted(u.funcs.values(), key=lambda f: f.name):
+            if not fn.blocks:
+                continue
+            vl = [p_['n'] for p_ in fn.params if 'va_list' in p_['t']]
+            if not vl:
+                continue
+            L = vl[0]
+
+            def is_read(n_, L=L):
+                if n_.get('k') != 'va_arg':
+                    return False
+                e = strip_all_casts(n_.get('e'))
+                return isinstance(e, dict) and e.get('k') == 'ref' and e.get('n') == L
+
+            def fwd(n_, L=L):
+                if n_.get('k') != 'call' or n_.get('fn') not in FRESH:
+                    return False
+                return any(isinstance(strip_all_casts(a), dict) and strip_all_casts(a).get('k') == 'ref' and strip_all_casts(a).get('n') == L for a in n_.get('args', []))
+            ev = pr.Events(fn)
+            fw = ev.find(fwd)
+            if not fw:
+                continue
+            n += len(fw)
+            bad = {}
+            for pos in ev.find(is_read):
+                hits, _ = ev.reach((pos[0], pos[1]), fwd, lambda n_: False)
+                for h in hits:
+                    bad.setdefault(h[2].get('l'), (pos[2].get('l'), h[2]))
+            for line, (rl, call) in sorted(bad.items()):
+                rep.add('R-va-forward', '%s:%s@%s' % (fn.name, call.get('fn'), line), VIOLATED, '%s:%s' % (fn.file, line),
+                        what='%s reads an argument with va_arg() (line %s) and then passes the same list to %s (line %s), which expects the arguments of the '
+                             'command from the start: the inner pipe reads past what the caller supplied' % (fn.name, rl, call.get('fn'), line))
+    rep.add('R-va-forward', 'all-units', HOLDS, '', forwarding_calls=n)
+    if n < 5:
+        raise facts.AnalysisBroken('R-va-forward found only %d calls forwarding an argument list' % n)
+    return n
+
+
 def run(tier='quick', repo=None):
     repo = repo or facts.REPO
     rep = Report(PROP, tier)
@@ -220,6 +270,7 @@ def run(tier='quick', repo=None):
         if a not in prog.units or fnname not in prog.units[a].funcs:
             raise facts.AnalysisBroken('anchor vanished: %s:%s' % (a, fnname))
     check_va_seq(rep, prog)
+    check_va_forward(rep, prog)
     E = effects.Effects(prog)
     pairs_seen = []
     n_excl = [0]
